@@ -1,11 +1,12 @@
 pub mod solver;
 pub mod unify;
 pub mod builtins;
+pub mod parsers;
 
 use crate::driver::Property;
 
 pub fn all_ids() -> Vec<&'static str> {
-    vec!["C01", "C02", "C03", "C04", "C05", "C06", "C07", "C08", "C09", "C11", "C12", "C13", "C14", "C15", "C16", "C17"]
+    vec!["C01", "C02", "C03", "C04", "C05", "C06", "C07", "C08", "C09", "C11", "C12", "C13", "C14", "C15", "C16", "C17", "C18", "C19", "C20", "C21"]
 }
 
 pub fn by_id(id: &str) -> Option<Box<dyn Property>> {
@@ -28,6 +29,10 @@ pub fn by_id(id: &str) -> Option<Box<dyn Property>> {
         "C15" => Box::new(builtins::BuiltinProp { id: "C15", aspect: builtins::BAspect::Lists }),
         "C16" => Box::new(builtins::BuiltinProp { id: "C16", aspect: builtins::BAspect::Append }),
         "C17" => Box::new(builtins::BuiltinProp { id: "C17", aspect: builtins::BAspect::Misc }),
+        "C18" => Box::new(parsers::ParserProp { id: "C18", aspect: parsers::PAspect::NoPanic }),
+        "C19" => Box::new(parsers::ParserProp { id: "C19", aspect: parsers::PAspect::RoundTrip }),
+        "C20" => Box::new(parsers::ParserProp { id: "C20", aspect: parsers::PAspect::Context }),
+        "C21" => Box::new(parsers::ParserProp { id: "C21", aspect: parsers::PAspect::File }),
         _ => return None,
     })
 }
